@@ -63,7 +63,35 @@ def escaper_summary(prog, fn_body):
     return True, "unconditionally replaces & (first), < and \" by their entities"
 
 
+RAW_WRITES = ("std::io::Write::write_all", "std::io::Write::write_fmt", "std::io::Write::write", "std::io::Write::write_vectored", "std::io::copy")
+
+
+def single_serialiser(prog, chk, rule="A11.single-serialiser"):
+    """everything the library writes goes through OutputList::write_to (quick-xml's Writer::write_event, where the
+    escaping rules of A11.sink apply): no library function writes bytes to the output stream itself (write!, write_all)"""
+    raw, events = [], []
+    for b in prog.bodies.values():
+        if b.unit != "svgdx-lib" or b.path.startswith(("svgdx::cli::", "svgdx::server::", "svgdx::transform_file", "svgdx::transform_str")) or prog.owners_of(b.path) & {"svgdx::transform_file"}:
+            continue
+        for (bb, t, c) in b.call_sites(lambda c: c.decl_path in RAW_WRITES or c.path in RAW_WRITES):
+            # formatting into a String / fmt::Formatter is not output
+            ty = " ".join(c.targs or []) + (c.self_ty or "") + (c.inst or "")
+            if "std::string::String" in ty or "fmt::Formatter" in ty or "Vec<u8>" in ty and False:
+                continue
+            raw.append((b, bb, t, c))
+        for (bb, t, c) in b.call_sites(lambda c: c.path.endswith("::write_event") and "quick_xml" in c.path):
+            events.append((b, bb, t, c))
+    chk.floor(rule, len(events), 1, "quick-xml write_event call (the serialiser)")
+    homes = sorted({b.path.split("::{closure")[0] for (b, _, _, _) in events})
+    chk.ob(homes == ["svgdx::events::OutputList::write_to"], rule, "write_event-home", "src/events.rs", "write_event is called only by OutputList::write_to", f"write_event is called from {homes}")
+    for (b, bb, t, c) in raw:
+        chk.bad(rule, f"{b.short}:{c.path.split('::')[-1]}", b.where(bb, t.get("line")), f"{b.short} writes to the output stream directly ({c.path}): these bytes bypass the serialiser - no escaping of attribute values / text, no normalisation - so what it writes is only as well-formed as the string it was given")
+    if not raw:
+        chk.ok(rule, "no-raw-write", "-", "no library function writes bytes to the output itself")
+
+
 def check_sinks(prog, chk, rule="A11.sink"):
+    single_serialiser(prog, chk)
     sites = sink_sites(prog)
     n = 0
     for (body, bb, t, c) in sites:
